@@ -1,5 +1,7 @@
 import Cardutil.Lemmas.Pds
 import Cardutil.Lemmas.Dict
+import Cardutil.Lemmas.Sort
+import Cardutil.Lemmas.IsoPds
 /-
   C12 — PDS sub-elements are packed into carrier elements and recovered without loss.
 
@@ -151,6 +153,19 @@ theorem C12_recover {k : IntClasses} (hk : k.Sane) (group : List (Text × Text))
     rw [List.map_map] at this
     exact this
   · exact List.mem_map.mpr ⟨e, he, rfl⟩
+
+/-- C12(f): the encoder visits the sub-elements in ASCENDING tag order, whatever the insertion
+    order of the keys in the message: the list it packs is ordered by the key text (Python's
+    string order), which for 4-digit tags is the numeric order of the tags; and it is a
+    permutation of the message's PDS entries (none lost, none invented) -/
+theorem C12_ascending_order (m : Dict) :
+    SortedByKey (sortPds (pdsEntriesOf m)) ∧ (sortPds (pdsEntriesOf m)).Perm (pdsEntriesOf m) :=
+  ⟨sortPds_sorted _, sortPds_perm _⟩
+
+theorem C12_tag_order_numeric (a b : List Nat) (ha : a.length = 4) (hb : b.length = 4)
+    (hda : ∀ d ∈ a, d < 10) (hdb : ∀ d ∈ b, d < 10) :
+    textLt (digitText a) (digitText b) = true ↔ fromDigits 10 a < fromDigits 10 b :=
+  textLt_digits a b (by rw [ha, hb]) hda hdb
 
 /-- non-vacuity: two sub-elements (one empty, one that looks like a header) in the domain -/
 example : WF [([48,48,50,51], []), ([48,49,52,56], [48,48,48,49,48,48,51])] := by
